@@ -464,8 +464,9 @@ impl SrtpContext {
     pub fn protect_rtcp(&mut self, packet: &mut Vec<u8>) -> SrtpResult<()> {
         self.rtcp_index += 1;
         let index = self.rtcp_index;
-        // E-bit = 1 (Encrypted)
-        let index_with_e = index | 0x8000_0000;
+        // E-bit = 1 (Encrypted); the NULL cipher leaves SRTCP in clear, like SRTP (E = 0)
+        let encrypts = !matches!(self._profile, SrtpProfile::NullCipherHmac);
+        let index_with_e = if encrypts { index | 0x8000_0000 } else { index };
 
         if let SrtpProfile::AeadAes128Gcm = self._profile {
             let nonce = self.build_gcm_rtcp_nonce(index);
@@ -501,7 +502,7 @@ impl SrtpContext {
 
         // Encrypt payload (everything after first 8 bytes of header)
         // RFC 3711: The first 8 octets of the RTCP header are not encrypted.
-        if packet.len() > 8 {
+        if packet.len() > 8 && encrypts {
             self.cipher_rtcp(packet, index);
         }
 
@@ -602,7 +603,8 @@ impl SrtpContext {
             self.rtcp_index = index;
         }
 
-        if e_bit && packet.len() > 8 {
+        let decrypts = !matches!(self._profile, SrtpProfile::NullCipherHmac);
+        if e_bit && decrypts && packet.len() > 8 {
             self.cipher_rtcp(packet, index);
         }
 
